@@ -120,6 +120,9 @@ type install struct {
 	// stmtChain (C04 only): the innermost statement party may parse its step through the public ParseStatement();
 	// that is a parse step like any other: the whole chain must run for it, once, in order
 	stmtChain bool
+	// sparse (C16 only): the plugin asks the context questions only now and then (at seeded invocations) instead
+	// of at every step; nothing else in the run asks them. Answers must not depend on when one last asked.
+	sparse bool
 	// bracket (C16 only): a statement party may wrap its step in a context value of its own
 	// (PushContext(7) ... PopContext()), as a plugin that introduces a new kind of scope does
 	bracket bool
@@ -173,6 +176,10 @@ func drawInstall(ch *kernel.Chooser, forC16 bool) install {
 	in.stmtReenter = forC16 && ch.Bool(1, 4)
 	in.stmtChain = !forC16 && ch.Bool(1, 5)
 	in.bracket = forC16 && ch.Bool(1, 5)
+	if forC16 && ch.Bool(1, 4) {
+		in.sparse = true
+		in.bracket, in.bailout = false, false // these parties ask the questions themselves
+	}
 	in.builds = 1 + ch.Weighted(5, 3, 2)
 	in.lateAdds = make([]byte, in.builds)
 	for b := 1; b < in.builds; b++ {
@@ -382,8 +389,15 @@ func (x *installation) add(k byte, via bool) {
 				}
 				entry := p.CurrentToken
 				ord := r.ordinal(entry)
-				c0, f0 := p.CurrentContext(), p.IsInFunction()
+				var c0 parser.ContextType
+				var f0 bool
+				if !in.sparse {
+					c0, f0 = p.CurrentContext(), p.IsInFunction()
+				}
 				defer func() {
+					if in.sparse {
+						return
+					}
 					// a parse step, successful or not, leaves the context as it found it
 					if c1, f1 := p.CurrentContext(), p.IsInFunction(); (c1 != c0 || f1 != f0) && r.imbalance == "" {
 						r.imbalance = fmt.Sprintf("statement step at token %s: context before (%d, inFunction=%v), after (%d, inFunction=%v)", xutil.TokString(entry), int(c0), f0, int(c1), f1)
@@ -416,8 +430,11 @@ func (x *installation) add(k byte, via bool) {
 					}
 				}
 				r.add('S', idx, 'e', ord, false)
-				if idx == 0 {
+				if idx == 0 && (!in.sparse || ch.Bool(1, 4)) {
 					r.ctxs = append(r.ctxs, ctxObs{kind: 'S', ord: ord, inFunc: p.IsInFunction(), ctx: p.CurrentContext(), tokLit: entry.Literal, bracketed: x.bracketDepth > 0})
+					if in.sparse {
+						st.Inc("probe.context_asked_only_now_and_then")
+					}
 				}
 				if in.bracket && idx == x.si-1 && ch.Bool(1, 8) {
 					// innermost party: the step runs inside the plugin's own context value
@@ -444,7 +461,7 @@ func (x *installation) add(k byte, via bool) {
 					// the whole chain runs again, nested, for this step; this party passes through the second time
 					x.inStmtReenter = true
 					st.Inc("probe.statement_parsed_through_public_ParseStatement")
-					if p.IsInFunction() {
+					if !in.sparse && p.IsInFunction() {
 						st.Inc("probe.public_ParseStatement_inside_function_body")
 					}
 					if ch.Bool(1, 2) {
@@ -473,8 +490,15 @@ func (x *installation) add(k byte, via bool) {
 				}
 				entry := p.CurrentToken
 				ord := r.ordinal(entry)
-				c0, f0 := p.CurrentContext(), p.IsInFunction()
+				var c0 parser.ContextType
+				var f0 bool
+				if !in.sparse {
+					c0, f0 = p.CurrentContext(), p.IsInFunction()
+				}
 				defer func() {
+					if in.sparse {
+						return
+					}
 					if c1, f1 := p.CurrentContext(), p.IsInFunction(); (c1 != c0 || f1 != f0) && r.imbalance == "" && recover0(x) {
 						r.imbalance = fmt.Sprintf("expression step at token %s: context before (%d, inFunction=%v), after (%d, inFunction=%v)", xutil.TokString(entry), int(c0), f0, int(c1), f1)
 					}
@@ -488,7 +512,9 @@ func (x *installation) add(k byte, via bool) {
 				}
 				r.add('E', idx, 'e', ord, re)
 				if idx == 0 {
-					r.ctxs = append(r.ctxs, ctxObs{kind: 'E', ord: ord, inFunc: p.IsInFunction(), ctx: p.CurrentContext(), tokLit: entry.Literal, bracketed: x.bracketDepth > 0})
+					if !in.sparse || ch.Bool(1, 6) {
+						r.ctxs = append(r.ctxs, ctxObs{kind: 'E', ord: ord, inFunc: p.IsInFunction(), ctx: p.CurrentContext(), tokLit: entry.Literal, bracketed: x.bracketDepth > 0})
+					}
 				}
 				x.exprDepth++
 				if in.subParse && ch.Bool(1, 24) {
